@@ -489,6 +489,9 @@ def c18(ctx):
         ctx.tlc("FsStoreGen", fs_cfg(sc, emit=False, view=True), workers=8, timeout=2400)
     args = ["fscancel", "-seed", str(ctx.seed), "-scratch", ctx.scratch] + ([] if quick else ["-thorough"])
     ctx.absorb(ctx.vh_run(args, timeout=3000), args, label="fsstore/cancel")
+    # a crash that is a real process death: a child process SIGKILLs itself before each filesystem operation of its put
+    args = ["fskill", "-seed", str(ctx.seed), "-scratch", ctx.scratch] + ([] if quick else ["-thorough"])
+    ctx.absorb(ctx.vh_run(args, timeout=3000), args, label="fsstore/kill")
     # another layout of the base directory: staging on another filesystem than the shards (rename impossible)
     args = ["fslayout", "-scratch", ctx.scratch, "-rounds", "4" if quick else "16"]
     ctx.absorb(ctx.vh_run(args, timeout=3000), args, label="fsstore/layout")
@@ -506,12 +509,15 @@ def c18(ctx):
              "specification's state after every step; cancellation: the writer's context is cancelled immediately before "
              "each of its filesystem operations (put and streams of 1 and 3 writes; 0 B, 57 B, 300 KiB, 1 MiB; the operation "
              "count is discovered by a dry run), then a new handle checks absent-or-complete, acknowledged-is-visible and "
-             "usability; layout: '.temp' as a symbolic link to a directory on another filesystem (where one is available: "
+             "usability; kill: the writer is a child PROCESS that sends itself SIGKILL before each of its filesystem operations "
+             "(put, streams of 1 and 3 writes; 0 B, 57 B, 300 KiB), then the parent opens the directory: absent or complete, "
+             "acknowledged is visible, the key can be put again; layout: '.temp' as a symbolic link to a directory on another filesystem (where one is available: "
              "/dev/shm), 32 MiB puts and streams with a reader polling Get / GetStream from a second handle meanwhile -- "
              "absent or complete, acknowledged is visible (the store may refuse every put there); non-trivial = contains a "
              "crash, a fault, a cancellation, a second thread or the other layout; distinct = distinct schedules",
-        assumptions=["process death is simulated in-process (threads never resume; files stay as they are); power loss / "
-                     "page-cache loss is outside the property",
+        assumptions=["process death is simulated in-process in the TLC-driven schedules (threads never resume; files stay as "
+                     "they are) and real (SIGKILL of a child process) in the kill stage; power loss / page-cache loss is "
+                     "outside the property",
                      "hook points cover every filesystem call of fsstore.go (reviewed)"],
         exhaustive=quick is False)
 
